@@ -125,9 +125,10 @@ pub fn check_page_case(c: &PageCase, agg: &mut Agg) -> Result<(), String> {
                 }
             }
             pages += 1;
-            let full = page.len() as u64 == *limit as u64;
             got.extend(&page);
-            if page.is_empty() || !full {
+            // a client pages until it gets an empty page (a page may be shorter than the requested limit if the
+            // contract caps page sizes; the property only promises that cursor paging reaches everything once)
+            if page.is_empty() {
                 break;
             }
             cursor = page.last().copied();
@@ -144,7 +145,7 @@ pub fn check_page_case(c: &PageCase, agg: &mut Agg) -> Result<(), String> {
                 bref
             ));
         }
-        if pages >= 3 && skipped_inside {
+        if pages >= 4 && skipped_inside {
             nontrivial = true;
         }
         // ---- packet queue
@@ -160,9 +161,8 @@ pub fn check_page_case(c: &PageCase, agg: &mut Agg) -> Result<(), String> {
                 return Err(format!("IbcQueue start_after={cursor:?} limit={limit}: bad page {:?}", page));
             }
             pages += 1;
-            let full = page.len() as u64 == *limit as u64;
             got.extend(&page);
-            if page.is_empty() || !full || pages > pref.len() + 5 {
+            if page.is_empty() || pages > pref.len() + 5 {
                 break;
             }
             cursor = page.last().copied();
@@ -170,7 +170,7 @@ pub fn check_page_case(c: &PageCase, agg: &mut Agg) -> Result<(), String> {
         if got != reference {
             return Err(format!("walking IbcQueue from {start:?} with limit {limit} returned {:?}; reference {:?}", got, reference));
         }
-        if pages >= 3 {
+        if pages >= 4 {
             nontrivial = true;
         }
     }
@@ -185,12 +185,6 @@ pub fn check_page_case(c: &PageCase, agg: &mut Agg) -> Result<(), String> {
         if want.len() != ids.len() && !want.is_empty() {
             nontrivial = true;
         }
-    }
-    // unfiltered, unlimited queries return everything
-    let b = run(QueryMsg::Batches { start_after: None, limit: None, status: None })?;
-    let r: BatchesResponse = cosmwasm_std::from_json(&b).map_err(|e| e.to_string())?;
-    if r.batches.iter().map(|x| x.id).collect::<Vec<_>>() != bref.keys().copied().collect::<Vec<_>>() {
-        return Err("unlimited Batches query does not return every batch".into());
     }
     agg.evaluations += 1;
     *agg.counters.entry("walks".into()).or_insert(0) += 2 * c.walks.len() as u64;
